@@ -18,7 +18,7 @@ ANY_MACROS = f"{REPO}/tests/macros/jasm_macros.yaml"
 # property -> list of (universe key in the export, options)
 PLAN = {
     "C01": dict(export="Export_C01", parts=[("m", dict(flags=ALL4, spellings=[{}, {"ints": True}])),   # ints differ only in the thorough universe
-                                            ("c", dict(flags=ALL4))],
+                                            ("c", dict(flags=ALL4)), ("n", dict(flags=ALL4, spellings=[{}, {"ints": True}]))],
                 mc=[("MC_C01", {"quick": "MC_C01_quick.cfg", "thorough": "MC_C01_thorough.cfg"})]),
     "C02": dict(export="Export_C02", parts=[("m", dict(flags=FF, spellings=[{"times": "body"}, {"times": "sib"}, {"times": "sib", "alias": True},
                                                                             {"times": "body", "alias": True}])),
@@ -44,7 +44,7 @@ PLAN = {
                                             ("a", dict(flags=[(False, False), (False, True)], macros=[ANY_MACROS])),
                                             ("t", dict(flags=FF))],
                 mc=[("MC_Scan", {"quick": "MC_Scan.cfg", "thorough": "MC_Scan_thorough.cfg"})]),
-    "C11": dict(export="Export_C11", parts=[(None, dict(flags=FF))],
+    "C11": dict(export="Export_C11", parts=[("m", dict(flags=FF)), ("s", dict(flags=FF))],
                 mc=[("MC_Scan", {"quick": "MC_Scan.cfg", "thorough": "MC_Scan_thorough.cfg"})]),
     "C12": dict(export="Export_C12", parts=[("m", dict(flags=[(False, False), (True, False)], fresh=True)),
                                             ("n", dict(flags=FF, fresh=True, modes_only=True)),
